@@ -19,7 +19,8 @@ import (
 	"verifharness/servlab"
 )
 
-var segAlphabet = []string{"a", "b", "ab", "st", "{p}", "{p}x", "a{p}", "{p}-c", "{p}.json"}
+// "~me" sorts after '{' and "$x" before every letter: static siblings on both sides of a parameter in any ordering by bytes
+var segAlphabet = []string{"a", "b", "ab", "st", "{p}", "{p}x", "a{p}", "{p}-c", "{p}.json", "~me", "$x"}
 
 var methodPool = []string{"GET", "POST", "PUT", "DELETE", "PATCH", "HEAD", "OPTIONS", "TRACE"}
 
@@ -104,6 +105,10 @@ var regression = [][]string{
 	{"/st/{p0}/a", "/{p0}/{p1}/b", "/st/ab/{p0}"},
 	{"/{p0}/a", "/{p0}/b", "/{p0}/{p1}"},
 	{"/a/{p0}x/b", "/a/{p0}/b"},
+	{"/users/~me", "/users/{p0}"},
+	{"/a/~x", "/a/{p0}", "/a/b"},
+	{"/$a", "/{p0}", "/~"},
+	{"/a/{p0}/c", "/a/~me/d", "/a/|x"},
 }
 
 func Main(args []string) int {
